@@ -2,4 +2,4 @@
 # Runs each property's check against the harmless rewrites collected under seeded_harmless/<id>_h<k>/ : none may raise an alarm.
 cd "$(dirname "$0")/.."
 J=${1:-5}
-ls -d seeded_harmless/C??_h? | xargs -P $J -I{} bash -c 'n=$(basename {}); p=${n%_*}; if grep -q '"obsolete"' seeded_harmless/$n/meta.json; then echo "$n obsolete"; exit 0; fi; out=$(OMP_NUM_THREADS=2 VERIF_NCPU=3 tools/try_mutant.sh $p /verif/seeded_harmless/$n/patch.diff 2>&1); if echo "$out" | grep -q "VIOLATION"; then echo "$n FALSE-ALARM: $(echo "$out" | grep -B1 VIOLATION | head -3 | tr "\n" " " | cut -c1-300)"; elif echo "$out" | grep -q "^\[$p\] ok"; then echo "$n quiet"; else echo "$n ???: $(echo "$out" | tail -2 | tr "\n" " " | cut -c1-200)"; fi' | sort
+ls -d seeded_harmless/C??_h* | xargs -P $J -I{} bash -c 'n=$(basename {}); p=${n%_*}; if grep -q '"obsolete"' seeded_harmless/$n/meta.json; then echo "$n obsolete"; exit 0; fi; out=$(OMP_NUM_THREADS=2 VERIF_NCPU=3 tools/try_mutant.sh $p /verif/seeded_harmless/$n/patch.diff 2>&1); if echo "$out" | grep -q "VIOLATION"; then echo "$n FALSE-ALARM: $(echo "$out" | grep -B1 VIOLATION | head -3 | tr "\n" " " | cut -c1-300)"; elif echo "$out" | grep -q "^\[$p\] ok"; then echo "$n quiet"; else echo "$n ???: $(echo "$out" | tail -2 | tr "\n" " " | cut -c1-200)"; fi' | sort
